@@ -356,6 +356,24 @@ func genC10(e *emitter, r *rng, thorough bool) {
 		v.Mod(v, fldP)
 		emitValueOps("normalised-random", wordsOf(v))
 	}
+	// values whose high words are saturated except ONE middle word (the constant-time ">= p" test ANDs words 2..8):
+	// each of the seven middle words in turn is the odd one out, low words at / above / below the prime's
+	for j := 2; j <= 8; j++ {
+		for _, low := range [][2]uint32{{fMask, fMask}, {fPW0, fPW1}, {fPW0 - 1, fPW1}, {fPW0 + 1, fPW1 + 1}, {0, 0}} {
+			for _, odd := range []uint32{fMask - 1, 0, fMask >> 1, uint32(r.next()) & fMask} {
+				var f fv
+				for i := 2; i <= 8; i++ {
+					f[i] = fMask
+				}
+				f[9] = fMSB
+				f[j] = odd
+				f[0], f[1] = low[0], low[1]
+				e.emit("norm.mid-one-unsaturated", "field.normalise "+fvStr(f))
+				f[9] = fMSB + (1 << 22) // and with a carry out of bit 256
+				e.emit("norm.mid-one-unsaturated.carry", "field.normalise "+fvStr(f))
+			}
+		}
+	}
 	genPredicates(e, r, g, scale)
 }
 
